@@ -327,6 +327,15 @@ def c03(ctx: Ctx) -> None:
     if not r.set_:
         ctx.violation('C03-S1', 'the completion flag is never set', where, 'wait() never returns',
                       construct=construct_key('BUFFER.daemon', 'no set'))
+    # S11: ... and a successful call always sets it: otherwise the round goes on with the set it has just delivered
+    ctx.rule('C03-S11', 'after a normal completion of the wrapped call the flag is set on every path back to the round test', 1)
+    for c in r.callfunc:
+        ne_ = [e for e in G.succ[c.id] if e.label != 'exc']
+        w11 = must_pass(G, [], [r.round_branch, G.exit], r.set_, start_edges=ne_, edge_ok=_nonexc)
+        ctx.check('C03-S11', f'success of {norm(c.ast)} ends the round', G.loc(c), w11 is None and bool(r.set_),
+                  'delivered arguments are delivered once', 'after a successful call the round can continue with the same set (the flag is set only '
+                  'under a further condition): arguments already delivered are passed to the function again',
+                  witness=render(G, w11), construct=construct_key('BUFFER.daemon', 'success does not end the round'))
     # S2
     binds = [n for n in G.nodes if n.kind == 'store_name' and n.meta['name'] == RS and not n.meta.get('inlined_param')]
     muts = []
